@@ -208,7 +208,11 @@ def lake_build(targets: Sequence[str], timeout: float = 1500) -> tuple[bool, str
 	if not lean_available():
 		raise InfraError('lean/lake not on PATH')
 	with _Lock():
-		rc, out, err = run_cmd(['lake', 'build', *targets], LEAN_DIR, timeout)
+		return _lake_build_locked(targets, timeout)
+
+
+def _lake_build_locked(targets: Sequence[str], timeout: float = 1500) -> tuple[bool, str]:
+	rc, out, err = run_cmd(['lake', 'build', *targets], LEAN_DIR, timeout)
 	return rc == 0, out + err
 
 
@@ -296,20 +300,35 @@ def prove(ctx: Ctx, prop: str, extra_modules: Sequence[str] = (), leanchecker: b
 	"""Build Tranp.Props.<prop>, then `#print axioms` every theorem it declares and scan for forbidden tokens."""
 	module = f'Tranp.Props.{prop}'
 	props_file = os.path.join(LEAN_DIR, 'Tranp', 'Props', f'{prop}.lean')
-	with ctx.timed('lake_build'):
-		built, log = lake_build([module, 'driver', *extra_modules])
 	names = theorem_names(props_file)
 	theorems: list[dict[str, Any]] = []
+	if not lean_available():
+		raise InfraError('lean/lake not on PATH')
+	audit_src = f'import {module}\n' + ''.join(f'#print axioms {n}\n' for n in names)
+	audit_dir = os.path.join(LEAN_DIR, '.audit')
+	os.makedirs(audit_dir, exist_ok=True)
+	audit_file = os.path.join(audit_dir, f'{prop}.{os.getpid()}.lean')
+	text = ''
+	# build and audit under ONE lock: another check (or a builder) relinking the project between the two steps would make the
+	# audit read half-written object files and print nothing; an audit that prints nothing for a module that built is repeated once.
+	for attempt in range(2):
+		with _Lock():
+			with ctx.timed('lake_build'):
+				built, log = _lake_build_locked([module, 'driver', *extra_modules])
+			if not built:
+				break
+			with open(audit_file, 'w', encoding='utf-8') as f:
+				f.write(audit_src)
+			with ctx.timed('axiom_audit'):
+				rc, out, err = run_cmd(['lake', 'env', 'lean', audit_file], LEAN_DIR, 600)
+			text = out + err
+		if not names or 'axioms' in text:
+			break
+	try:
+		os.unlink(audit_file)
+	except OSError:
+		pass
 	if built:
-		audit_src = f'import {module}\n' + ''.join(f'#print axioms {n}\n' for n in names)
-		audit_dir = os.path.join(LEAN_DIR, '.audit')
-		os.makedirs(audit_dir, exist_ok=True)
-		audit_file = os.path.join(audit_dir, f'{prop}.lean')
-		with open(audit_file, 'w', encoding='utf-8') as f:
-			f.write(audit_src)
-		with ctx.timed('axiom_audit'):
-			rc, out, err = run_cmd(['lake', 'env', 'lean', audit_file], LEAN_DIR, 600)
-		text = out + err
 		# "'Name' depends on axioms: [a, b]"  |  "'Name' does not depend on any axioms"
 		found: dict[str, list[str] | None] = {}
 		for m in re.finditer(r"'([^']+)' depends on axioms: \[([^\]]*)\]", text, flags=re.S):
